@@ -406,6 +406,13 @@ def run(rep):
                     byvalue.append("truth value of idxinlets")
         rep.check(not byvalue, "R06.c", "gis/grid.py", "delineate_area", "the kernel gets no inlet only when none is given (None / zero length), not depending on the inlet values",
                   f"the empty inlet list is selected by {sorted(set(byvalue))[:2]}: the inlet set {{0}} (top-left cell) is dropped silently", line=s.call.lineno, firm=True)
+        # every inlet given reaches the kernel: conversions only (np.unique keeps the set), no selection by value or position
+        cut = [show(x)[:70] for _c, alt in pq.split_where(inl) if pq.mentions(alt, lambda y: y == ('sym', 'idxinlets'))
+               for x in pq.find(alt, lambda y: (pq.call_named(y, "getitem") or pq.call_named(y, "delete") or pq.call_named(y, "compress") or pq.call_named(y, "extract")
+                                                  or pq.call_named(y, "setdiff1d") or pq.call_named(y, "intersect1d") or pq.call_named(y, "trim_zeros"))
+                                and pq.mentions(y, lambda z: z == ('sym', 'idxinlets')))]
+        rep.check(not cut, "R06.c", "gis/grid.py", "delineate_area", "every inlet given by the caller is handed to the kernel (conversions only, no selection by value or position)",
+                  f"the inlets are filtered before the search: {cut[:1]} (a dropped inlet lets the area continue upstream of it; cell 0 is a cell)", line=s.call.lineno, firm=True)
     okflt = _filters_nonneg(f, ast.unparse(s.args["idxcells_area"][0]) if "idxcells_area" in s.args else None)
     rep.check(okflt, "R06.b", "gis/grid.py", "delineate_area", "area = cells with a non-negative number (the -1 filling is dropped)", "", line=f.lineno)
     params = {a.arg for a in f.args.args}
